@@ -129,6 +129,7 @@ pub fn globals_builder() -> GlobalsBuilder {
         Pstr, Prepr, Json, Typing, Internal, CallStack, SetType,
     ])
     .with(natives::harness_natives)
+    .with(natives::binding_natives)
 }
 
 struct Printer;
